@@ -165,6 +165,19 @@ def run_hyp(facet, tally, tier, seed, shard, nshards):
             tally.failures.setdefault(fail["signature"], []).append(fail)
             mask.add(fail["signature"])
             n = max(1, n // 2)
+        except hypothesis.errors.Flaky:
+            # the same generated case failed once and passed on replay: the code under test keeps state across
+            # calls in this process (class/module-level caches, leaked configuration).  That is a violation in its
+            # own right (results must not depend on earlier calls); the saved case may need the history to reproduce.
+            fail = state["fail"]
+            if fail is None:
+                raise
+            fail = dict(fail)
+            mask.add(fail["signature"])
+            fail["signature"] += ":history-dependent"
+            fail["note"] = "failed when generated, passed when replayed alone: depends on earlier calls in the same process"
+            tally.failures.setdefault(fail["signature"], []).append(fail)
+            n = max(1, n // 2)
         # any other exception: harness problem, propagates
 
 
